@@ -200,6 +200,8 @@ pub struct VerifSnapshot {
     pub graveyard: Vec<String>,
     pub last_wills: Vec<String>,
     pub max_connections: usize,
+    /// Per filter log: (filter, absolute offset of oldest retained entry, next offset).
+    pub filters: Vec<(String, u64, u64)>,
 }
 
 #[derive(Debug, Clone, Default)]
